@@ -149,7 +149,8 @@ def strategy_(draw, tier):
     for j, m in enumerate(metas):
         # spellings that name an ancestor of other entries are only used alone (the T/U
         # reading of C01 is per argument; aliasing arguments are C16's business)
-        if m["spelling"] in ANCESTRAL:
+        if m["spelling"] in ANCESTRAL or (m["kind"] == "link_dir" and m["spelling"].startswith("e_dot")):
+            # ('link-to-dir/.' denotes the link's target, possibly a directory holding other arguments)
             files, metas = [files[j]], [metas[j]]
             break
     if not files:
